@@ -1930,8 +1930,10 @@ func (query *Query) execAndPostProcess() (result any, err error) {
 		return nil, err
 	}
 	query.wg.Wait()
-	for _, postProcessor := range query.postProcessors {
-		err := postProcessor()
+	// a post processor may register further ones (AWAIT evaluates its argument here, and a subquery in it
+	// defers the removal of its navigation entry): the list is walked to its current end
+	for i := 0; i < len(query.postProcessors); i++ {
+		err := query.postProcessors[i]()
 		if err != nil {
 			return nil, err
 		}
